@@ -20,7 +20,7 @@ import (
 
 type zzC08Sum struct {
 	stake, token, ostake, otoken *big.Int
-	count, ocount               uint64
+	count, ocount                uint64
 }
 
 func zzC08NewSum() *zzC08Sum {
